@@ -27,18 +27,78 @@ def strip_pairs(method, args):
     return [a0] + list(args[1:])
 
 
+HASH_DEFAULTS = {"set": False, "add": False, "replace": False, "append": False, "prepend": False, "delete": False,
+                 "touch": False, "cas": False, "incr": None, "decr": None}
+
+
 class HashLockstep(LockstepHook):
+    """Lock-step model for a HashClient cluster: one abstract map, compared per key with the key's owner
+    server; knows about rotation changes (add_server) and about keys for which nothing was sent
+    (server in its retry window)."""
+
     def __init__(self, scn, start_step=0):
         LockstepHook.__init__(self, scn, "hash")
         self.start_step = start_step
         self.started = start_step == 0
+        w = scn["world"]
+        self.names = [refhash.node_name(codec.dec(x)) for x in w["servers"]]
+        self.nid_of = {}
+        self.rk_of = {}
+        self.rotation_changed = False
+        ck = w["client_kwargs"]
+        self.prefix = codec.dec(ck.get("key_prefix", E(b"")))
+        if isinstance(self.prefix, str):
+            self.prefix = self.prefix.encode()
+        self.spec_nodes = w["nodes"]
+        for i, n in enumerate(w["nodes"][:len(self.names)]):
+            self.nid_of[self.names[i]] = n["id"]
+
+    def wk(self, k):
+        return self.prefix + (k.encode("utf8") if isinstance(k, str) else k)
 
     def on_step(self, world, res, i, st):
         if self.started:
             LockstepHook.on_step(self, world, res, i, st)
 
+    def note_keys(self, method, args):
+        a0 = args[0] if args else None
+        if method == "set_many":
+            ks = list(a0.keys())
+        elif method in ("get_many", "gets_many", "delete_many"):
+            ks = list(a0)
+        elif method == "add_server" or a0 is None:
+            ks = []
+        else:
+            ks = [a0]
+        out = []
+        for ck_ in ks:
+            rk, k = split_pair(ck_)
+            self.rk_of[self.wk(k)] = rk
+            out.append((rk, k))
+        return out
+
     def after_call(self, world, res, rec):
         if rec.step < 0:
+            return
+        args, kwargs = res.extra["args"][rec.step]
+        if rec.method == "add_server":
+            if rec.outcome == "return":
+                old = list(self.names)
+                spec = args[0]
+                name = refhash.node_name(spec)
+                if name not in self.names:
+                    self.names.append(name)
+                    for n in self.spec_nodes:
+                        if ("path" in n and n["path"] == name) or \
+                                ("addrs" in n and "%s:%s" % (n["addrs"][0][0], n["addrs"][0][1]) == name):
+                            self.nid_of[name] = n["id"]
+                    self.rotation_changed = True
+                    # keys whose owner changed are lost from the client's point of view
+                    if self.model is not None:
+                        for wk in list(self.model.items):
+                            rk = self.rk_of.get(wk)
+                            if rk is None or refhash.owner(old, rk) != refhash.owner(self.names, rk):
+                                del self.model.items[wk]
             return
         if not self.started:
             if rec.step + 1 >= self.start_step:
@@ -48,13 +108,70 @@ class HashLockstep(LockstepHook):
                     if n.health == "up":
                         for k, it in n.snapshot().items():
                             m.items[k] = [it[0], it[1], it[2], m._newver(), world.clock.now]
+            self.note_keys(rec.method, args)
             return
-        args, kwargs = res.extra["args"][rec.step]
-        res.extra["args"][rec.step] = (strip_pairs(rec.method, args), kwargs)
+        pairs = self.note_keys(rec.method, args)
+        if rec.outcome == "raise" and isinstance(rec.exc, OSError):
+            return          # a connection failure surfaced: nothing to compare
+        sent = {c[2] for c in rec.commands if c[2] is not None}
+        unsent = [k for rk, k in pairs if self.wk(k) not in sent]
+        stripped = strip_pairs(rec.method, args)
+        if unsent:
+            # the owning server is in its retry window: nothing was sent for these keys
+            m = rec.method
+            keep = [k for rk, k in pairs if self.wk(k) in sent]
+            if m == "set_many":
+                sub = {k: v for k, v in stripped[0].items() if k in keep}
+                exp = self._m(world).apply(m, [sub] + stripped[1:], kwargs) if sub else ("return", [])
+                want = set(map(repr, (exp[1] if exp[0] == "return" else []))) | set(map(repr, unsent))
+                got = set(map(repr, rec.value)) if rec.outcome == "return" and rec.value is not None else None
+                if got is None or not want <= got or not got <= want | set(map(repr, keep)) or \
+                        any(repr(k) not in got for k in unsent):
+                    self.mismatch.append(("unsent-keys-not-reported-as-failed", rec,
+                                          {"unsent": [repr(k) for k in unsent][:5], "got": rec.enc_outcome()}))
+            elif m in ("get_many", "gets_many", "delete_many"):
+                res.extra["args"][rec.step] = ([keep] + stripped[1:], kwargs)
+                try:
+                    LockstepHook.after_call(self, world, res, rec)
+                finally:
+                    res.extra["args"][rec.step] = (args, kwargs)
+            else:
+                if m in HASH_DEFAULTS:
+                    want = HASH_DEFAULTS[m]
+                elif m in ("get", "gat"):
+                    want = kwargs.get("default")
+                else:
+                    want = (kwargs.get("default"), kwargs.get("cas_default"))
+                if rec.outcome != "return" or not model.results_equal(want, rec.value):
+                    self.mismatch.append(("unsent-call-did-not-return-its-default", rec,
+                                          {"want": repr(want), "got": rec.enc_outcome()}))
+            return
+        res.extra["args"][rec.step] = (stripped, kwargs)
         try:
             LockstepHook.after_call(self, world, res, rec)
         finally:
             res.extra["args"][rec.step] = (args, kwargs)
+
+    def state_diff(self, world, m):
+        """Per key: the model's item must equal what the key's owner holds; servers may keep stale copies of
+        keys they no longer own."""
+        mv = m.visible()
+        diff = {}
+        snaps = {nid: n.snapshot() for nid, n in world.nodes.items()}
+        up_names = [n for n in self.names]
+        for wk, item in mv.items():
+            rk = self.rk_of.get(wk)
+            if rk is None:
+                continue
+            holders = [nid for nid, sn in snaps.items() if wk in sn and (sn[wk][0], sn[wk][1], sn[wk][2]) == item]
+            if not holders:
+                diff[repr(wk)] = [repr(item)[:80], "no server holds this item"]
+        if not self.rotation_changed and self.start_step == 0:
+            for nid, sn in snaps.items():
+                for wk in sn:
+                    if wk not in mv:
+                        diff[repr(wk)] = ["absent in model", "held by server %s" % nid]
+        return diff or None
 
 
 class C12(Prop):
@@ -64,8 +181,10 @@ class C12(Prop):
             "UNIX paths; pooled or not; with key prefix) and a history of 5-25 key-addressed operations over a key "
             "set of up to 50 keys (str and bytes, some as (server_key, key) pairs): every single-key operation and "
             "set_many / get_many / gets_many / delete_many, interleaved so that keys written singly are read by "
-            "multi-key calls and vice versa; one fifth of the units first evict a server through failover and then "
-            "run the same workload on the reduced rotation. Oracle: per-server command logs versus an independent "
+            "multi-key calls and vice versa; a quarter of the units first make a server fail and then run the workload "
+            "either on the rotation reduced by its eviction or while it sits in its retry window (nothing may be sent "
+            "for its keys and set_many must report them as failed); a third of the fault-free units add servers at run "
+            "time (add_server) in mid-history. Oracle: per-server command logs versus an independent "
             "reference placement (rendezvous over a from-the-C-source MurmurHash3): every command for key k at "
             "owner(k) only, each key of a multi-key call exactly once; plus a single abstract map stepped in "
             "lock-step (results and union of server stores). distinct = (server-set shape, op/arity sequence, number "
@@ -102,8 +221,20 @@ class C12(Prop):
         if rng.random() < 0.4:
             ck["use_pooling"] = True
             ck["max_pool_size"] = rng.choice([None, 2])
-        degraded = nn >= 2 and rng.random() < 0.2
-        ck["retry_attempts"] = rng.choice([0, 1, 2])
+        degraded = nn >= 2 and rng.random() < 0.25
+        flavour = rng.choice(["evicted", "backoff"]) if degraded else None
+        ck["retry_attempts"] = rng.choice([0, 1, 2]) if flavour != "backoff" else rng.choice([1, 2])
+        spares = []
+        if not degraded and rng.random() < 0.3:
+            for j in range(rng.randint(1, 2)):
+                i = nn + j
+                if rng.random() < 0.3:
+                    spec = {"id": i, "path": "/var/run/memcached/spare%d.sock" % i}
+                    spares.append(spec["path"])
+                else:
+                    spec = {"id": i, "addrs": [["10.7.0.%d" % (i + 1), 11211]]}
+                    spares.append(("10.7.0.%d" % (i + 1), 11211))
+                nodes.append(spec)
         ck["retry_timeout"], ck["dead_timeout"] = 1, 600
         w = {"stack": "hash", "servers": servers, "nodes": nodes, "client_kwargs": ck,
              "knobs": {"recv_size": rng.choice(gen.RECV_SIZES)}}
@@ -120,19 +251,27 @@ class C12(Prop):
         names = [refhash.node_name(codec.dec(s)) for s in servers]
         steps = []
         start = 0
+        vname = None
         if degraded:
             victim = rng.randrange(nn)
             vname = names[victim]
             owned = [k for k in keys if refhash.owner(names, split_pair(k)[0]) == vname]
             if owned:
                 steps.append({"t": "node", "id": victim, "health": rng.choice(["refuse", "connect_timeout", "reset"])})
-                for _ in range(ck["retry_attempts"] + 3):
-                    steps.append({"t": "call", "m": "set", "a": [E(rng.choice(owned)), E(b"pre")],
-                                  "k": {"noreply": False}, "tag": "preamble"})
-                    steps.append({"t": "advance", "dt": 1.5})
+                if flavour == "evicted":
+                    for _ in range(ck["retry_attempts"] + 3):
+                        steps.append({"t": "call", "m": "set", "a": [E(rng.choice(owned)), E(b"pre")],
+                                      "k": {"noreply": False}, "tag": "preamble"})
+                        steps.append({"t": "advance", "dt": 1.5})
+                else:
+                    # one failure only: the server stays in rotation but in its retry window, so nothing is
+                    # sent for its keys during the workload that follows immediately
+                    ck["retry_timeout"] = 30
+                    steps.append({"t": "call", "m": "get", "a": [E(rng.choice(owned))], "k": {}, "tag": "preamble"})
                 start = len(steps)
             else:
                 degraded = False
+                flavour = None
 
         def some(lo=0, hi=8):
             n = rng.randint(lo, min(hi, len(keys)))
@@ -187,7 +326,10 @@ class C12(Prop):
                 k["expire"] = rng.choice([0, 100])
                 k["noreply"] = rng.choice([False, True])
             steps.append({"t": "call", "m": m, "a": a, "k": k})
-        return [{"property": self.id, "world": w, "steps": steps, "phase2": start, "degraded": degraded}]
+            if spares and rng.random() < 0.15:
+                steps.append({"t": "call", "m": "add_server", "a": [E(spares.pop())], "k": {}})
+        return [{"property": self.id, "world": w, "steps": steps, "phase2": start, "degraded": degraded,
+                 "flavour": flavour, "victim": vname}]
 
     def run(self, scn):
         hook = HashLockstep(scn, scn.get("phase2", 0))
@@ -208,15 +350,31 @@ class C12(Prop):
             prefix = prefix.encode()
         servers = [codec.dec(s) for s in w["servers"]]
         names = [refhash.node_name(s) for s in servers]
-        name_of_node = {n["id"]: names[i] for i, n in enumerate(w["nodes"])}
+        name_of_node = {}
+        for n in w["nodes"]:
+            name_of_node[n["id"]] = n["path"] if "path" in n else "%s:%s" % (n["addrs"][0][0], n["addrs"][0][1])
         start = scn.get("phase2", 0)
-        degraded = scn.get("degraded")
+        degraded = scn.get("degraded") and scn.get("flavour") != "backoff"
+        backoff = scn.get("flavour") == "backoff"
+        victim = scn.get("victim")
         agree = {}
+        rotation_changed = False
         for rec in res.calls:
             if rec.step < start:
                 continue
             args, kwargs = res.extra["args"][rec.step]
             m = rec.method
+            if m == "add_server":
+                if rec.outcome == "return":
+                    nm = refhash.node_name(args[0])
+                    if nm not in names:
+                        names = names + [nm]
+                        rotation_changed = True
+                else:
+                    out.append(viol("add_server-raised", rec, exc=type(rec.exc).__name__))
+                continue
+            if rec.outcome == "raise" and isinstance(rec.exc, OSError) and (degraded or backoff):
+                continue
             if m == "set_many":
                 ckeys = list(args[0].keys())
             elif m in ("get_many", "gets_many", "delete_many"):
@@ -229,6 +387,10 @@ class C12(Prop):
                 wk = prefix + (k.encode("utf8") if isinstance(k, str) else k)
                 expected.append((refhash.owner(names, rk), wk, rk))
             got = [(name_of_node[c[0]], c[2]) for c in rec.commands if c[2] is not None]
+            if backoff:
+                # the failing server is still in rotation: nothing may be sent for its keys (retry window),
+                # everything else goes to its owner over the full list
+                expected = [e for e in expected if e[0] != victim]
             if not degraded:
                 want = sorted((e[0], e[1]) for e in expected)
                 if sorted(got) != want:
@@ -257,7 +419,7 @@ class C12(Prop):
         for oracle, rec, d in res.extra["mismatch"][:2]:
             out.append(viol(oracle, rec, **d))
         # no key may live on two servers at once (fault-free batch)
-        if not degraded and not out:
+        if not degraded and not backoff and not rotation_changed and not out:
             seen = {}
             for nid, n in res.world.nodes.items():
                 for k in n.snapshot():
@@ -293,15 +455,25 @@ class C12(Prop):
 
     def probe_names(self):
         return ("multi-key-call-spans-3-servers", "server-key-pair-routed", "unix-and-tcp-mixed", "reduced-rotation",
-                "duplicate-key-in-multi-get", "empty-key-collection", "fifty-keys")
+                "duplicate-key-in-multi-get", "empty-key-collection", "fifty-keys",
+                "server-added-at-run-time", "owning-server-in-retry-window")
 
     def probes(self, scn, res):
         p = {}
         w = scn["world"]
         if any("path" in n for n in w["nodes"]) and any("addrs" in n for n in w["nodes"]):
             p["unix-and-tcp-mixed"] = 1
-        if scn.get("degraded"):
+        if scn.get("degraded") and scn.get("flavour") == "evicted":
             p["reduced-rotation"] = 1
+        if scn.get("flavour") == "backoff":
+            p["owning-server-in-retry-window"] = 1
+        if any(c.method == "add_server" and c.outcome == "return" for c in res.calls):
+            p["server-added-at-run-time"] = 1
+        allk = set()
+        for c in res.calls:
+            allk |= {x[2] for x in c.commands}
+        if len(allk) >= 40:
+            p["fifty-keys"] = 1
         for c in res.calls:
             if c.step < 0:
                 continue
